@@ -78,7 +78,7 @@ def modelRocks (hs : List HS) : String × List String :=
       let r2 := r1.put h
       let tornImg := (r2.images .power).headD []
       let line := s!"live:{showHS (Rocks.loadRecs r2.recs)},ret:{showHS (Rocks.loadRecs ((r2.images .process).headD []))}," ++
-        s!"torn:{rle (List.replicate 4 (showHS (Rocks.loadRecs tornImg)))}"
+        s!"torn:{rle (List.replicate 2 (showHS (Rocks.loadRecs tornImg)))}"
       line :: go r2 rest
   (";".intercalate (s!"init:{showHS (Rocks.loadRecs [])}" :: go { recs := [], durable := 0 } hs), ["rocks"])
 
